@@ -61,7 +61,7 @@ PROPS = {
     "C12": dict(lean=["Mav.Props.C12"], groups=[("C12", sizes(40, 1200))],
                 crash_signatures=[("crash:pion-udp-waitgroup", r"sync: (WaitGroup is reused|WaitGroup misuse|negative WaitGroup).*pion/transport/v2/udp")],
                 trusted=["Go channel/select/goroutine semantics as modelled by Mav/Model/Node.lean; OS socket release observed by re-binding; goroutine census by runtime.Stack filtered to gomavlib / pion frames"],
-                partial=["termination of Close is a liveness property under a fair scheduler: the model theorems give the safety half (no send on the closed event channel, everything ended when it is closed, no dispatch after the loop); that Close returns within a bound is observed on real runs, not proved"]),
+                partial=["termination of Close: proved in the model as progress (close_never_stuck: a closing node always has an enabled step that lowers the measure) plus a bound (close_bounded: at most mu(s) state-changing steps once the loop has seen terminate and the providers have returned); fairness of the Go scheduler / select towards the node loop and providers, and the return of blocked transport calls once the transport is closed, are assumptions; that Close returns within a bound, goroutine / port / connection release and the Close count of custom transports are observed on real runs"]),
     "C13": dict(lean=["Mav.Props.C13"], groups=[("C13", sizes(30, 1500))],
                 trusted=["Go channel/select/goroutine semantics as modelled by Mav/Model/Node.lean"]),
     "C14": dict(lean=["Mav.Props.C14"], groups=[("C14", sizes(30, 400))], confirm=["lifecheck ", "tnc "],
